@@ -167,15 +167,18 @@ def totalWeight (f : Host → Bool) : List Entry → Nat
   | [] => 0
   | (h, w) :: r => if f h then w + totalWeight f r else totalWeight f r
 
-/-- second pass: `randomWeight -= weight; if randomWeight <= 0 { chosenHost = host; return false }`.
-`rw` is `randomWeight · q`. -/
-def chooseLoop (f : Host → Bool) (q : Nat) : List Entry → Int → Option Host
-  | [], _ => none
-  | (h, w) :: r, rw =>
-    if f h then
+/-- second pass of `filterAndChooseHost` (as repaired): hosts failing the filter are passed
+over; so are hosts with `weight <= 0` when `totalWeight > 0` (`skipZero`); every other host becomes
+`lastEligible`, then `randomWeight -= weight; if randomWeight <= 0 { chosenHost = &h; return false }`.
+When the loop ends without a choice the result is `lastEligible` (`last`). `rw` is `randomWeight · q`. -/
+def chooseLoop (f : Host → Bool) (q : Nat) (skipZero : Bool) : List Entry → Int → Option Host → Option Host
+  | [], _, last => last
+  | (h, w) :: r, rw, last =>
+    if !f h then chooseLoop f q skipZero r rw last
+    else if skipZero && w == 0 then chooseLoop f q skipZero r rw last
+    else
       let rw' := rw - ((q * w : Nat) : Int)
-      if rw' ≤ 0 then some h else chooseLoop f q r rw'
-    else chooseLoop f q r rw
+      if rw' ≤ 0 then some h else chooseLoop f q skipZero r rw' (some h)
 
 /-- the nondeterminism one call of `filterAndChooseHost` consumes: the iteration sequences of its
 two passes and the draw `rng.Float64() = p / q` -/
@@ -188,7 +191,8 @@ deriving Repr
 
 /-- `filterAndChooseHost` -/
 def filterAndChooseHost (f : Host → Bool) (d : Draw) : Option Host :=
-  chooseLoop f d.q d.it2 ((d.p * totalWeight f d.it1 : Nat) : Int)
+  let total := totalWeight f d.it1
+  chooseLoop f d.q (decide (0 < total)) d.it2 ((d.p * total : Nat) : Int) none
 
 /-- the `for _, scheme := range prioritizedSchemes` loop; the `k`-th call uses `env k` -/
 def chooseHostFrom (env : Nat → Draw) : List Bytes → Nat → Option Host
@@ -209,18 +213,20 @@ entries are `es`: each `range` visits every entry exactly once, in some order, a
 def Draw.Valid (es : List Entry) (d : Draw) : Prop :=
   d.it1.Perm es ∧ d.it2.Perm es ∧ d.p < d.q
 
-/-- Instrumented twin of `chooseLoop`: the *position* in the iteration sequence at which the loop
-stops. Proved to agree with `chooseLoop` (`c19_choice_position_agrees`); used only to state where
-in the sequence the choice falls. -/
-def chooseLoopIdx (f : Host → Bool) (q : Nat) : List Entry → Int → Option Nat
-  | [], _ => none
-  | (h, w) :: r, rw =>
-    if f h then
+/-- Instrumented twin of `chooseLoop`: the *position* in the iteration sequence of the entry
+returned (`i` = number of entries already passed). Proved to agree with `chooseLoop`
+(`c19_choice_position_agrees`); used only to state where in the sequence the choice falls. -/
+def chooseLoopIdx (f : Host → Bool) (q : Nat) (skipZero : Bool) : List Entry → Int → Nat → Option Nat → Option Nat
+  | [], _, _, last => last
+  | (h, w) :: r, rw, i, last =>
+    if !f h then chooseLoopIdx f q skipZero r rw (i + 1) last
+    else if skipZero && w == 0 then chooseLoopIdx f q skipZero r rw (i + 1) last
+    else
       let rw' := rw - ((q * w : Nat) : Int)
-      if rw' ≤ 0 then some 0 else (chooseLoopIdx f q r rw').map (· + 1)
-    else (chooseLoopIdx f q r rw).map (· + 1)
+      if rw' ≤ 0 then some i else chooseLoopIdx f q skipZero r rw' (i + 1) (some i)
 
 def filterAndChooseIdx (f : Host → Bool) (d : Draw) : Option Nat :=
-  chooseLoopIdx f d.q d.it2 ((d.p * totalWeight f d.it1 : Nat) : Int)
+  let total := totalWeight f d.it1
+  chooseLoopIdx f d.q (decide (0 < total)) d.it2 ((d.p * total : Nat) : Int) 0 none
 
 end Restli.D2
